@@ -148,7 +148,8 @@ def strip(l):
 def run(ctx):
     ctx.level = "proof"
     ctx.assumptions += [
-        "a task's actions (pop with locks, sweep + unlock, each child release, retire) are atomic steps of an interleaving semantics; the lock discipline that justifies it is the subject of C08",
+        "a task's actions (pop with locks, sweep + unlock, each child release, retire) are atomic steps of an interleaving semantics. The lock part of this is a THEOREM of C08 at the level of single AtomicValue operations (pop_is_atomic_acquire: each successful pop linearises at the CAS taking the task's last lock, the projected label sequence is enabled; acquire_guard / running_tasks_conflict_free: the guard of `acquire` holds; failed pops are stuttering steps; hydro_counter_zero). Still assumed: a sweep only touches the subgrids of its lock set (checked by C04's per-call address log), sequential consistency",
+        "the model merges `add_task(child)` and `number_of_tasks.pre_increment()` into one step; the real code enqueues first, so the counter can transiently read 0 while the releasing thread still has children to hand out: other threads may leave the loop early, the releasing thread completes the step alone (C08: hydro_counter_exact / hydro_counter_zero state what holds exactly; exactly-once, ordering, mutual exclusion and termination are unaffected)",
         "the replay uses the implementation's child order after checking it is a permutation of the model's child list (well-formedness of the graph only depends on multiplicities)",
         "trace stamps are taken inside a global mutex (hook H3), so the log order is a valid order of the logged actions",
     ]
@@ -234,5 +235,5 @@ def replay(ctx, path):
 MANIFEST = dict(
     category="proof",
     text="Lean theorems for EVERY layout nx x ny x nz, every periodicity (incl. 1 or 2 subgrids on a periodic axis), every number of threads and every interleaving of the worker actions: the hydro task graph is a well-formed DAG (child lists = inverse of parent lists with multiplicity, reset counters = in-degrees, <= 7 children, locks cover the touched subgrids and are distinct); over any well-formed graph the worker loop executes every task exactly once, never before its parents, never two tasks on one subgrid, number_of_tasks = queued+running, never stuck while > 0, strictly decreasing measure (termination), stable end. Tied to the code by the dumped task tables and by replaying every event of real multi-thread runs through the model (hook H3), plus the same statements evaluated directly on the trace.",
-    note="Trusted: Lean kernel + 3 axioms; hand model of make_hydro_tasks/set_dependencies/reset_hydro_tasks/worker loop; task-level atomicity (lock discipline is C08's subject); sequentially consistent atomics; trace hook takes a global mutex; runs that do not finish in 90 s are reported as non-termination.",
+    note="Trusted: Lean kernel + 3 axioms; hand model of make_hydro_tasks/set_dependencies/reset_hydro_tasks/worker loop; task-level atomicity (the lock part is proved in C08: pop_is_atomic_acquire, running_tasks_conflict_free; assumed: a sweep touches only its lock set); sequentially consistent atomics; trace hook takes a global mutex; runs that do not finish in 90 s are reported as non-termination.",
     technique="Lean 4 proof (inductive invariant over arbitrary interleavings, generic over well-formed task graphs + well-formedness of the hydro graph for all layouts) + trace refinement check against the real binary")
